@@ -24,12 +24,17 @@ def make_ops(idx, seed):
     disciplined = (idx // len(THEORIES)) % 2 == 0      # the engine's protocol: every assertion is followed by a check
     ops = [f"theory {th}"]
     natoms = 0
+    la_terms = []
     def new_atom():
         nonlocal natoms
         if th in ("lra", "lia"):
-            cs = [rng.choice([0, 1, -1, 2, -2, 3]) if th == "lia" else rng.choice(["0", "1", "-1", "2", "-3", "1/2"]) for _ in range(nv)]
-            if all(str(c) == "0" for c in cs):
-                cs[0] = 1
+            if la_terms and rng.random() < 0.45:
+                cs = rng.choice(la_terms)          # another bound on a term that already has one (weaker / stronger / equal)
+            else:
+                cs = [rng.choice([0, 1, -1, 2, -2, 3]) if th == "lia" else rng.choice(["0", "1", "-1", "2", "-3", "1/2"]) for _ in range(nv)]
+                if all(str(c) == "0" for c in cs):
+                    cs[0] = 1
+                la_terms.append(cs)
             ops.append(f"atom la {frac(rng, th == 'lra')} " + " ".join(map(str, cs)))
         elif th in ("idl", "rdl"):
             i, j = rng.sample(range(nv), 2)
@@ -67,6 +72,36 @@ def make_ops(idx, seed):
             ops.append(f"pop {rng.randint(1, 3)}")
         elif os.environ.get("C22_NO_MID") != "1":
             new_atom()
+    if th in ("lra", "lia") and rng.random() < 0.4:
+        # bound ladder: several bounds on one row term, some declared only after another one is asserted, asserted and
+        # retracted in between; then bounds on the summands that contradict a bound which is still asserted
+        ops.append("pop 50")
+        k = rng.randint(2, nv)
+        cs = [rng.choice([1, 1, 2]) if i < k else 0 for i in range(nv)]
+        c1 = rng.randint(2, 6)
+        first = natoms
+        ops.append(f"atom la {c1} " + " ".join(map(str, cs))); natoms += 1                      # A: term <= c1
+        lows = []
+        total = 0
+        for i in range(k):
+            li = rng.randint(1, 3)
+            total += cs[i] * li
+            row = ["0"] * nv; row[i] = "-1"
+            ops.append(f"atom la {-li} " + " ".join(row)); natoms += 1                            # G_i: x_i >= l_i
+            lows.append(natoms - 1)
+        ops += [f"assert {first} 1", "check 1"]
+        for _ in range(rng.randint(1, 3)):
+            c2 = c1 + rng.choice([-2, -1, 1, 2, 3])
+            ops.append(f"atom la {c2} " + " ".join(map(str, cs))); natoms += 1                  # B: another bound on the same term
+            ops.append(f"assert {natoms - 1} {rng.choice([1, 1, 0])}")
+            if rng.random() < 0.8:
+                ops.append(f"check {rng.randint(0, 1)}")
+            if rng.random() < 0.8:
+                ops.append("pop 1")
+        for a in lows:
+            ops.append(f"assert {a} 1")
+            if rng.random() < 0.4:
+                ops.append("check 0")
     ops.append("check 1")
     return th, ops
 
@@ -143,7 +178,12 @@ def run_case(args):
                         continue
                     if w and w[0] == "model-error":
                         continue
-                    reason = [(int(x.split(":")[0]), int(x.split(":")[1])) for x in w[3:]]
+                    try:
+                        reason = [(int(x.split(":")[0]), int(x.split(":")[1])) for x in w[3:]]
+                    except ValueError:
+                        res["problems"].append({"what": f"`{op}`: the solver raised an exception while its deductions were read: {part.strip()[-160:]}",
+                                                "kind": "exception"})
+                        break
                     res["deductions"] = res.get("deductions", 0) + 1
                     if not set(reason) <= set(stack):
                         res["problems"].append({"what": f"`{op}`: the reason {reason} of the deduced literal {w[1]} mentions literals that are "
